@@ -188,15 +188,23 @@ def yaml_text(d):
     return "".join(f"{k}: {json.dumps(v)}\n" for k, v in d.items())
 
 
+def key_names(c):
+    """(pool key names of the root set, pool key name of the ISK): position i holds the key of slot root<i> of the value class the
+    case gives it (Sb31Format!KeyClasses; every slot of the pool holds one key of every class)."""
+    nm = lambda slot, cls: slot if cls == "full" else f"{slot}_{cls}"  # noqa: E731
+    rk = c.get("rk") or ["full"] * c["nkeys"]
+    return [nm(f"root{i}", rk[i]) for i in range(c["nkeys"])], nm("isk", c.get("ik") or "full")
+
+
 def cert_block_object(c, pool):
     """The certificate block through the classes (for the `certBlock: <binary>` form and as the class lane builds it)."""
     from spsdk.utils.crypto.cert_blocks import CertBlockV21
 
-    curve, used = c["curve"], c["used"]
+    curve, used, roots, isk = c["curve"], c["used"], key_names(c)[0], key_names(c)[1]
     cb = CertBlockV21(
-        root_certs=[pool.pub_pem[curve, f"root{i}"] for i in range(c["nkeys"])], ca_flag=not c["isk"], used_root_cert=used,
-        constraints=c["constraints"], signature_provider=pool.sp(curve, f"root{used}") if c["isk"] else None,
-        isk_cert=pool.pub_pem[curve, "isk"] if c["isk"] else None, user_data=bytes.fromhex(c["udata"]) or None, family=c["k"]["fam"])
+        root_certs=[pool.pub_pem[curve, k] for k in roots], ca_flag=not c["isk"], used_root_cert=used,
+        constraints=c["constraints"], signature_provider=pool.sp(curve, roots[used]) if c["isk"] else None,
+        isk_cert=pool.pub_pem[curve, isk] if c["isk"] else None, user_data=bytes.fromhex(c["udata"]) or None, family=c["k"]["fam"])
     cb.calculate()
     return cb
 
@@ -204,7 +212,8 @@ def cert_block_object(c, pool):
 def render(c, d, pool):
     """Concrete case -> configuration dictionary; every file it refers to is written below d (keys of the pool by absolute path)."""
     k, curve, used, f = c["k"], c["curve"], c["used"], c["k"]["num"]
-    pub = lambda n: os.path.join(os.path.dirname(pool.priv_path[curve, n]), n + ".pub.pem")  # noqa: E731
+    pub = lambda n: pool.pub_path[curve, n]  # noqa: E731
+    roots, isk = key_names(c)
     cfg = {"family": k["fam"], "firmwareVersion": num(c["fw"], f), "containerOutputFile": "out.sb3"}
     # ---- certificate block: nested configuration file or binary
     if k["cb"] == "bin":
@@ -215,22 +224,22 @@ def render(c, d, pool):
         names = SHAPE["cert_block_keys"]["new" if k["cbNew"] else "legacy"]
         cb = {"family": k["fam"], "useIsk": c["isk"]}
         for i in range(c["nkeys"]):
-            cb[f"rootCertificate{i}File"] = pub(f"root{i}")
+            cb[f"rootCertificate{i}File"] = pub(roots[i])
         if k["rootId"]:
             cb["mainRootCertId"] = used
         if c["isk"]:
-            cb[names["isk"]] = pub("isk")
+            cb[names["isk"]] = pub(isk)
             cb[names["constraint"]] = num(c["constraints"], f)
             if c["udata"]:
                 with open(os.path.join(d, "user_data.bin"), "wb") as fh:
                     fh.write(bytes.fromhex(c["udata"]))
                 cb[names["data"]] = "user_data.bin"
-            cb.update(key_entry(k["cbSign"], pool.priv_path[curve, f"root{used}"]))
+            cb.update(key_entry(k["cbSign"], pool.priv_path[curve, roots[used]]))
         cb["containerOutputFile"] = "cert_block_out.bin"
         with open(os.path.join(d, "cert_block.yaml"), "w") as fh:
             fh.write(yaml_text(cb))
         cfg["certBlock"] = "cert_block.yaml"
-    cfg.update(key_entry(k["sign"], pool.priv_path[curve, "isk" if c["isk"] else f"root{used}"]))
+    cfg.update(key_entry(k["sign"], pool.priv_path[curve, isk if c["isk"] else roots[used]]))
     # ---- part-common key
     pck = bytes.fromhex(c["pck_hex"])
     text = pck.hex().upper() if c["upper"] else pck.hex()
